@@ -38,6 +38,15 @@ module-level instance of a class with container fields (`_empty_constrained`), e
 mutable attribute and every memoising decorator of pyanalyze has a registered kind. -/
 theorem proc_state_registered : procStateRegistered Gen.scannedProcState = true := proc_state_registered_proof
 
+/-- **Memo keys cover the parameters of the memoised computation** (the source-level form of
+`memo_key_must_determine`). For every store `<memo table>[key] = value` the scan finds in the live
+tree — `make_type_object`, `_cached_get_argspec`, `_get_generic_bases_cached`, `get_type_alias`,
+`TypeObject.can_assign`, `TypeshedFinder.get_attribute_for_fq_name`, `_value_from_info_inner`,
+`FunctionScope._resolve_value` — every parameter of the function that the stored value is computed
+from occurs in the key or in the container expression, or is one of the registered waivers. Dropping
+a parameter from a key (e.g. `on_class` from `_attribute_cache`) breaks this theorem. -/
+theorem memo_keys_cover_parameters : memoKeysCover Gen.scannedMemoKeys = true := memo_keys_cover_parameters_proof
+
 /-- **Scan obligation for identity keys.** Every expression that uses `id(…)` as (part of) a key, a
 hash or a membership test is registered with the reason why the address still belongs to a live
 object when it is compared. A new address key — e.g. a cache keyed by `id(node)` that does not hold
